@@ -393,11 +393,64 @@ fn thread_sample(os: i32) -> Option<(char, String, u64)> {
 fn stall_certificate() -> Option<String> {
     match stall_certificate_why() {
         Ok(c) => Some(c),
-        Err(why) => {
-            *LAST_NO_CERT.lock().unwrap_or_else(|p| p.into_inner()) = why;
-            None
-        }
+        Err(why) => match polling_stall_certificate() {
+            Ok(c) => Some(c),
+            Err(why2) => {
+                *LAST_NO_CERT.lock().unwrap_or_else(|p| p.into_inner()) = format!("{}; nor a polling stall: {}", why, why2);
+                None
+            }
+        },
     }
+}
+/// CPU ticks (utime + stime) a thread of this process has used
+fn thread_cpu_ticks(os: i32) -> Option<u64> {
+    let stat = std::fs::read_to_string(format!("/proc/self/task/{}/stat", os)).ok()?;
+    let after = stat.rsplit(')').next()?;
+    let f: Vec<&str> = after.split_whitespace().collect();
+    Some(f.get(11)?.parse::<u64>().ok()? + f.get(12)?.parse::<u64>().ok()?)
+}
+/// The stall that polls: some thread sleeps in a timed wait and looks again (`while !ready { sleep(1ms) }`), so its
+/// context-switch count moves although nothing happens. Certificate: over six samples one second apart the main loop
+/// stays inside the same handler, every thread of the process (but the harness' own two) is asleep at all samples
+/// but at most one, all of them together used less than 5% of one core, and not a single hook event occurred. Nothing is computing and
+/// nothing the monitor can see has happened; the client owes nothing.
+fn polling_stall_certificate() -> Result<String, String> {
+    let me = unsafe { libc::syscall(libc::SYS_gettid) as i32 };
+    let events = |st: &State| st.counts.values().sum::<u64>();
+    let (ev0, live0) = {
+        let st = sched().st.lock().unwrap_or_else(|p| p.into_inner());
+        if !st.in_handler {
+            return Err("the main loop is not inside a handler".into());
+        }
+        (events(&st), st.model.live.len())
+    };
+    let all: Vec<i32> = std::fs::read_dir("/proc/self/task").map_err(|e| e.to_string())?.flatten().filter_map(|e| e.file_name().to_string_lossy().parse::<i32>().ok()).filter(|t| *t != me && *t != std::process::id() as i32).collect();
+    let cpu0: u64 = all.iter().filter_map(|t| thread_cpu_ticks(*t)).sum();
+    let mut awake: BTreeMap<i32, u32> = BTreeMap::new();
+    for _ in 0..6 {
+        for t in &all {
+            match thread_sample(*t) {
+                Some((s, _, _)) if s == 'S' => {}
+                Some(_) => *awake.entry(*t).or_insert(0) += 1,
+                None => {}
+            }
+        }
+        std::thread::sleep(Duration::from_secs(1));
+    }
+    // (a thread that wakes a thousand times a second to look at a flag is caught awake now and then)
+    if let Some((t, n)) = awake.iter().find(|(_, n)| **n > 1) {
+        return Err(format!("thread {} was awake at {} of 6 samples", t, n));
+    }
+    let cpu1: u64 = all.iter().filter_map(|t| thread_cpu_ticks(*t)).sum();
+    let st = sched().st.lock().unwrap_or_else(|p| p.into_inner());
+    if !st.in_handler || events(&st) != ev0 || st.model.live.len() != live0 {
+        return Err("hook events occurred while sampling".into());
+    }
+    // 6 s of one busy core are 600 ticks; waking up to look at a flag every millisecond costs a few ticks
+    if cpu1 > cpu0 + 30 {
+        return Err(format!("the server's threads used {} CPU ticks while sampling", cpu1 - cpu0));
+    }
+    Ok(format!("main loop inside a handler, {} live snapshot task(s); all {} threads asleep at (nearly) all of six samples over 6 s, less than 5% of one core used by all of them together, no hook event: threads wake up and go back to sleep without anything happening (a polling wait for something only another waiting thread can provide)", live0, all.len()))
 }
 static LAST_NO_CERT: Mutex<String> = Mutex::new(String::new());
 fn stall_certificate_why() -> Result<String, String> {
@@ -888,7 +941,7 @@ fn stress(unit: u64, ctx: &mut Ctx) {
 fn binary_burst(unit: u64, k: u64, ctx: &mut Ctx) {
     let mut rng = Rng::derive(ctx.seed, 0x8b00, unit * 100 + k);
     let cpus = [1usize, 2, 3, 4, 8, 16][rng.below(6)];
-    let burst = match rng.below(6) {
+    let mut burst = match rng.below(6) {
         0 => cpus,
         1 => cpus + 1,
         2 => 2 * cpus + 1,
@@ -896,8 +949,15 @@ fn binary_burst(unit: u64, k: u64, ctx: &mut Ctx) {
         4 => 64,
         _ => rng.range(1, 200),
     };
-    let with_edit = rng.chance(1, 3);
-    let n_defs = [50usize, 400, 1500][rng.below(3)];
+    let mut with_edit = rng.chance(1, 3);
+    let mut n_defs = [50usize, 400, 1500][rng.below(3)];
+    // one burst per unit is a pile-up: an edit of a big document followed at once by hundreds of requests, which all
+    // wait for the same re-analysis (the requests in flight then number in the hundreds, whatever the CPU count)
+    if k == 0 && unit % 2 == 0 {
+        burst = [600usize, 800, 1100][rng.below(3)];
+        with_edit = true;
+        n_defs = 20000;
+    }
     run_burst(cpus, burst, with_edit, n_defs, rng.next(), ctx);
 }
 fn run_burst(cpus: usize, burst: usize, with_edit: bool, n_defs: usize, rng_seed: u64, ctx: &mut Ctx) {
@@ -928,7 +988,7 @@ fn run_burst(cpus: usize, burst: usize, with_edit: bool, n_defs: usize, rng_seed
         ctx.note("could not start the lsp binary under taskset: no verdict");
         return;
     };
-    let mut stdin = child.stdin.take().unwrap();
+    let stdin = Arc::new(Mutex::new(child.stdin.take().unwrap()));
     let mut stdout = child.stdout.take().unwrap();
     let pid = child.id();
     let (tx, rx) = std::sync::mpsc::channel::<Value>();
@@ -964,12 +1024,15 @@ fn run_burst(cpus: usize, burst: usize, with_edit: bool, n_defs: usize, rng_seed
     let mut answered: BTreeSet<u64> = BTreeSet::new();
     let mut published = 0u64;
     let mut owed_replies = 0u64; // server-to-client requests are answered at once, so this stays 0
-    let mut pump = |answered: &mut BTreeSet<u64>, published: &mut u64, stdin: &mut std::process::ChildStdin, wait: Duration| -> bool {
+    let mut pump = |answered: &mut BTreeSet<u64>, published: &mut u64, stdin: &Arc<Mutex<std::process::ChildStdin>>, wait: Duration| -> bool {
         match rx.recv_timeout(wait) {
             Ok(v) => {
                 if v.get("method").is_some() && v.get("id").is_some() {
-                    let _ = stdin.write_all(&frame(&json!({"jsonrpc": "2.0", "id": v["id"], "result": Value::Null})));
-                    let _ = stdin.flush();
+                    // (the server as shipped asks its client nothing; if the burst writer holds the pipe the reply waits)
+                    if let Ok(mut g) = stdin.try_lock() {
+                        let _ = g.write_all(&frame(&json!({"jsonrpc": "2.0", "id": v["id"], "result": Value::Null})));
+                        let _ = g.flush();
+                    }
                 } else if v.get("method").is_some() {
                     if v["method"] == "textDocument/publishDiagnostics" {
                         *published += 1;
@@ -985,27 +1048,39 @@ fn run_burst(cpus: usize, burst: usize, with_edit: bool, n_defs: usize, rng_seed
     let _ = owed_replies;
     owed_replies = 0;
     // handshake and opening
-    let _ = stdin.write_all(&frame(&json!({"jsonrpc": "2.0", "id": 0, "method": "initialize", "params": {"processId": Value::Null, "rootUri": Value::Null, "capabilities": {}}})));
-    let _ = stdin.flush();
+    {
+        let mut g = stdin.lock().unwrap_or_else(|p| p.into_inner());
+        let _ = g.write_all(&frame(&json!({"jsonrpc": "2.0", "id": 0, "method": "initialize", "params": {"processId": Value::Null, "rootUri": Value::Null, "capabilities": {}}})));
+        let _ = g.flush();
+    }
     let t0 = Instant::now();
     while !answered.contains(&0) && t0.elapsed() < SETTLE_WATCHDOG {
-        pump(&mut answered, &mut published, &mut stdin, Duration::from_millis(50));
+        pump(&mut answered, &mut published, &stdin, Duration::from_millis(50));
     }
     let mut opening = Vec::new();
     opening.extend(frame(&json!({"jsonrpc": "2.0", "method": "initialized", "params": {}})));
     opening.extend(frame(&json!({"jsonrpc": "2.0", "method": "textDocument/didOpen", "params": {"textDocument": {"uri": uri, "languageId": "tablegen", "version": 1, "text": text}}})));
-    let _ = stdin.write_all(&opening);
-    let _ = stdin.flush();
+    {
+        let mut g = stdin.lock().unwrap_or_else(|p| p.into_inner());
+        let _ = g.write_all(&opening);
+        let _ = g.flush();
+    }
     let t0 = Instant::now();
     while published == 0 && t0.elapsed() < SETTLE_WATCHDOG {
-        pump(&mut answered, &mut published, &mut stdin, Duration::from_millis(50));
+        pump(&mut answered, &mut published, &stdin, Duration::from_millis(50));
     }
     let ready = answered.contains(&0) && published > 0;
-    // the burst, in one write
-    let mut blob = Vec::new();
+    // the burst: written frame after frame by a thread of its own (if the server stops reading, the pipe fills up and
+    // the writer blocks - the client must not block with it)
+    let mut blob: Vec<Vec<u8>> = Vec::new();
     let methods = ["textDocument/hover", "textDocument/definition", "textDocument/references", "textDocument/documentSymbol", "textDocument/inlayHint", "textDocument/completion", "textDocument/documentLink", "textDocument/foldingRange"];
-    let first = rng.below(8);
-    let uniform = rng.chance(1, 2);
+    let mut first = rng.below(8);
+    let mut uniform = rng.chance(1, 2);
+    if burst >= 500 {
+        // pile-ups use the cheapest request kind: what matters is how many are in flight, not what they compute
+        first = 0;
+        uniform = true;
+    }
     for i in 0..burst {
         let m = methods[if uniform { first } else { (first + i) % 8 }];
         let line = 1 + rng.below(n_defs) as u64;
@@ -1016,19 +1091,38 @@ fn run_burst(cpus: usize, burst: usize, with_edit: bool, n_defs: usize, rng_seed
             "textDocument/references" => json!({"textDocument": td, "position": {"line": line, "character": 10}, "context": {"includeDeclaration": true}}),
             _ => json!({"textDocument": td, "position": {"line": line, "character": 10}}),
         };
-        blob.extend(frame(&json!({"jsonrpc": "2.0", "id": 1000 + i as u64, "method": m, "params": params})));
-        if with_edit && i == burst / 2 {
-            blob.extend(frame(&json!({"jsonrpc": "2.0", "method": "textDocument/didChange", "params": {"textDocument": {"uri": uri, "version": 2}, "contentChanges": [{"text": format!("{}def extra : A<7>;\n", text)}]}})));
+        if with_edit && burst >= 500 && i == 0 {
+            blob.push(frame(&json!({"jsonrpc": "2.0", "method": "textDocument/didChange", "params": {"textDocument": {"uri": uri, "version": 2}, "contentChanges": [{"text": format!("{}def extra : A<7>;\n", text)}]}})));
+        }
+        blob.push(frame(&json!({"jsonrpc": "2.0", "id": 1000 + i as u64, "method": m, "params": params})));
+        if with_edit && burst < 500 && i == burst / 2 {
+            blob.push(frame(&json!({"jsonrpc": "2.0", "method": "textDocument/didChange", "params": {"textDocument": {"uri": uri, "version": 2}, "contentChanges": [{"text": format!("{}def extra : A<7>;\n", text)}]}})));
         }
     }
-    let wrote = ready && stdin.write_all(&blob).is_ok() && stdin.flush().is_ok();
+    let all_written = Arc::new(std::sync::atomic::AtomicBool::new(false));
+    let writer = if ready {
+        let (stdin, all_written) = (stdin.clone(), all_written.clone());
+        Some(std::thread::spawn(move || {
+            for f in blob {
+                let mut g = stdin.lock().unwrap_or_else(|p| p.into_inner());
+                if g.write_all(&f).is_err() {
+                    return;
+                }
+            }
+            let _ = stdin.lock().unwrap_or_else(|p| p.into_inner()).flush();
+            all_written.store(true, Ordering::SeqCst);
+        }))
+    } else {
+        None
+    };
+    let wrote = ready;
     let want: BTreeSet<u64> = (0..burst as u64).map(|i| 1000 + i).collect();
     let mut stalled: Option<String> = None;
     let mut gave_up = false;
     if wrote {
         let mut idle_since = Instant::now();
         while !want.is_subset(&answered) {
-            if pump(&mut answered, &mut published, &mut stdin, Duration::from_millis(100)) {
+            if pump(&mut answered, &mut published, &stdin, Duration::from_millis(100)) {
                 idle_since = Instant::now();
                 continue;
             }
@@ -1036,7 +1130,7 @@ fn run_burst(cpus: usize, burst: usize, with_edit: bool, n_defs: usize, rng_seed
                 // nothing has arrived for a while: is the server still doing anything at all?
                 match process_idle_certificate(pid) {
                     Ok(c) => {
-                        stalled = Some(c);
+                        stalled = Some(if all_written.load(Ordering::SeqCst) { c } else { format!("{}; it has also stopped reading its input (part of the burst is still in the pipe)", c) });
                         break;
                     }
                     Err(why) => {
@@ -1059,6 +1153,9 @@ fn run_burst(cpus: usize, burst: usize, with_edit: bool, n_defs: usize, rng_seed
     if with_edit {
         ctx.feature("burst_with_edit");
     }
+    if burst >= 500 {
+        ctx.feature("pile_up_bursts");
+    }
     ctx.feature_n("burst_requests", burst as u64);
     ctx.nontrivial(fnv64(case.to_string().as_bytes()));
     if !ready || !wrote {
@@ -1076,13 +1173,18 @@ fn run_burst(cpus: usize, burst: usize, with_edit: bool, n_defs: usize, rng_seed
     } else {
         ctx.feature("burst_fully_answered");
     }
-    let _ = stdin.write_all(&frame(&json!({"jsonrpc": "2.0", "id": 9, "method": "shutdown", "params": Value::Null})));
-    let _ = stdin.write_all(&frame(&json!({"jsonrpc": "2.0", "method": "exit", "params": Value::Null})));
-    let _ = stdin.flush();
-    drop(stdin);
+    if let Ok(mut g) = stdin.try_lock() {
+        let _ = g.write_all(&frame(&json!({"jsonrpc": "2.0", "id": 9, "method": "shutdown", "params": Value::Null})));
+        let _ = g.write_all(&frame(&json!({"jsonrpc": "2.0", "method": "exit", "params": Value::Null})));
+        let _ = g.flush();
+    }
     std::thread::sleep(Duration::from_millis(20));
     let _ = child.kill();
     let _ = child.wait();
+    if let Some(w) = writer {
+        let _ = w.join();
+    }
+    drop(stdin);
     let _ = reader.join();
     let _ = std::fs::remove_dir_all(&dir);
 }
@@ -1117,7 +1219,24 @@ fn process_idle_certificate(pid: u32) -> Result<String, String> {
     std::thread::sleep(Duration::from_millis(700));
     let b = sample(pid)?;
     if a != b {
-        return Err("threads of the server were scheduled or used CPU time between the samples".into());
+        // the polling variant: threads may wake up and go back to sleep, but nothing computes - every thread asleep at
+        // six samples over six seconds and at most one CPU tick used by the whole process
+        let mut last = b;
+        let mut awake: BTreeMap<i32, u32> = BTreeMap::new();
+        for _ in 0..6 {
+            for t in last.0.iter().filter(|t| t.1 != 'S') {
+                *awake.entry(t.0).or_insert(0) += 1;
+            }
+            std::thread::sleep(Duration::from_secs(1));
+            last = sample(pid)?;
+        }
+        if let Some((t, n)) = awake.iter().find(|(_, n)| **n > 1) {
+            return Err(format!("thread {} was awake at {} of 6 samples", t, n));
+        }
+        if last.1 > a.1 + 30 {
+            return Err("the server used CPU time between the samples".into());
+        }
+        return Ok(format!("all {} threads of the server process were asleep at (nearly) all of six samples over 6 s and the process used less than 5% of one core: threads wake up and go back to sleep without computing (a polling wait)", last.0.len()));
     }
     if let Some(t) = a.0.iter().find(|t| t.1 != 'S') {
         return Err(format!("thread {} is in state {}", t.0, t.1));
@@ -1231,10 +1350,10 @@ impl Check for C08 {
         }
     }
     fn rule(&self) -> String {
-        "CONTROLLED: the lsp hook callback blocks every server thread at its acquisition points (file-table read/write, salsa input write, task start); a scheduler grants one thread at a time, only when the modelled lock state lets the real acquisition succeed, and enumerates all grant orders depth-first by re-running the scenario on the real server (real tokio runtime, real locks) with a forced choice prefix. Scenarios: handler in {didChange of the root, didOpen of another document, didChange of an included open document, didChange of the root with unchanged text} against one in-flight snapshot task of each of the 9 kinds (8 request kinds + the diagnostics task of a preceding edit), quick also 2 and thorough all two-task combinations. A state where threads wait and none can be granted is a deadlock; the wait-for cycle over holders (not queue positions) is the witness; afterwards every request must have its response and the server must become idle. STRESS: uncontrolled sessions of 40-120 messages (edit bursts mixed with all request kinds) on a workspace whose analysis takes milliseconds, with seeded delays injected at the acquisition points; the same wait-for graph is maintained online and a stall is a violation only if it shows a cycle or passes the stall certificate (main loop inside a handler, every live snapshot task started, all of them asleep in one unchanged futex wait at two /proc/self/task samples while the monitor holds nobody back); a bare watchdog is no verdict. The same certificate decides a controlled schedule in which a granted thread never reaches its next hooked point. non-trivial = every schedule / session; distinct = distinct grant sequences".into()
+        "CONTROLLED: the lsp hook callback blocks every server thread at its acquisition points (file-table read/write, salsa input write, task start); a scheduler grants one thread at a time, only when the modelled lock state lets the real acquisition succeed, and enumerates all grant orders depth-first by re-running the scenario on the real server (real tokio runtime, real locks) with a forced choice prefix. Scenarios: handler in {didChange of the root, didOpen of another document, didChange of an included open document, didChange of the root with unchanged text} against one in-flight snapshot task of each of the 9 kinds (8 request kinds + the diagnostics task of a preceding edit), quick also 2 and thorough all two-task combinations. A state where threads wait and none can be granted is a deadlock; the wait-for cycle over holders (not queue positions) is the witness; afterwards every request must have its response and the server must become idle. STRESS: uncontrolled sessions of 40-120 messages (edit bursts mixed with all request kinds) on a workspace whose analysis takes milliseconds, with seeded delays injected at the acquisition points; the same wait-for graph is maintained online and a stall is a violation only if it shows a cycle or passes the stall certificate (main loop inside a handler, every live snapshot task started, all of them asleep in one unchanged futex wait at two /proc/self/task samples while the monitor holds nobody back); a bare watchdog is no verdict. The same certificate decides a controlled schedule in which a granted thread never reaches its next hooked point. A second form of the certificate covers waits that poll (a thread sleeping in a timed wait and looking again): every thread asleep at all but at most one of six samples over 6 s, less than 5% of one core used by all of them together, no hook event. SHIPPED BINARY: the lsp binary built from the working tree, over stdio, pinned to 1-16 CPUs; bursts of N requests written frame by frame by a separate thread (N = CPUs, CPUs+1, 2*CPUs+1, 4*CPUs+3, 64, random <= 200, and pile-ups: an edit of a 20000-def document followed at once by 600-1100 hovers); every request must be answered; a stall is decided by the same two certificates taken on the server process (all threads asleep in an unchanged wait and no CPU time used / the polling form). non-trivial = every schedule / session; distinct = distinct grant sequences".into()
     }
     fn floors(&self, tier: Tier) -> Vec<(&'static str, u64)> {
-        vec![("schedules", tier.pick(60, 1000)), ("handler:DidChangeRoot", 20), ("handler:DidOpenOther", 20), ("handler:DidChangeIncluded", 20), ("handler:DidChangeRootSameText", 20), ("task:Diagnostics", 6), ("task:Definition", 6), ("task:DocumentLink", 3), ("stress_sessions", tier.pick(16, 300)), ("binary_bursts", tier.pick(30, 250)), ("burst_larger_than_cpu_count", tier.pick(10, 100)), ("burst_fully_answered", tier.pick(30, 250)), ("event:VfsReadHeld", 100), ("event:SalsaWriteDone", 100)]
+        vec![("schedules", tier.pick(60, 1000)), ("handler:DidChangeRoot", 20), ("handler:DidOpenOther", 20), ("handler:DidChangeIncluded", 20), ("handler:DidChangeRootSameText", 20), ("task:Diagnostics", 6), ("task:Definition", 6), ("task:DocumentLink", 3), ("stress_sessions", tier.pick(16, 300)), ("binary_bursts", tier.pick(30, 250)), ("burst_larger_than_cpu_count", tier.pick(10, 100)), ("burst_fully_answered", tier.pick(30, 250)), ("pile_up_bursts", tier.pick(5, 20)), ("event:VfsReadHeld", 100), ("event:SalsaWriteDone", 100)]
     }
     fn exhaustive(&self, tier: Tier) -> Option<String> {
         Some(format!("all grant orders at the hooked points for each of the {} scenarios (capped at {} schedules per scenario; a cap hit is reported as feature scenario_truncated)", scenarios(tier).len(), tier.pick(400, 4000)))
